@@ -537,6 +537,26 @@ def rule_offsets(ctx):
                "searchsorted (left) of the very bound that starts the secondary slice", node=defs.get(P_o2, rets[0]), func=bp)
 
 
+def rule_reuse(ctx):
+    ctx.rule("C04.cache", "T1", "the cached spatial index is reused only when _spatial_is_cached(lat, lon) holds for the points at hand")
+    b = ctx.func(COL, "Collocator._build_spatial_index")
+    flow = Flow(b)
+    lat, lon = b.params[1], b.params[2]
+    rets = [r_ for r_ in flow.stmts if isinstance(r_, ast.Return) and r_.value is not None and norm(r_.value) == "self.index"]
+    if not rets:
+        raise AnalysisError("_build_spatial_index: the path that reuses self.index was not found")
+    from ..flow import facts_at
+    bad = []
+    for r_ in rets:
+        fa = facts_at(r_)
+        pos = [norm(flow.resolve(e_, at=e_, stop=(lat, lon))) for e_, tr_ in fa if tr_]
+        if "self._spatial_is_cached(%s, %s)" % (lat, lon) not in pos:
+            bad.append("return self.index under %s" % ([("" if tr_ else "not ") + str(norm(e_)) for e_, tr_ in fa] or "no condition"))
+    ctx.ob("Collocator._build_spatial_index.reuse", not bad, "; ".join(bad) or "self.index returned only under self._spatial_is_cached(%s, %s)" % (lat, lon),
+           "every reuse is guarded by the comparison of the cached points with the points at hand (no flag remembered from an earlier call replaces it)",
+           node=rets[0], func=b)
+
+
 def rule_cache(ctx):
     ctx.rule("C04.cache", "T1", "a cached spatial index is reused only for coordinates identical to the ones it was built from")
     f = ctx.func(COL, "Collocator._spatial_is_cached")
@@ -588,5 +608,5 @@ def rule_interval(ctx):
 
 
 def run(ctx):
-    for r in (rule_empty, rule_temporal, rule_window, rule_nan, rule_swap, rule_offsets, rule_cache, rule_interval):
+    for r in (rule_empty, rule_temporal, rule_window, rule_nan, rule_swap, rule_offsets, rule_cache, rule_interval, rule_reuse):
         ctx.attempt(r, ctx)
